@@ -312,6 +312,28 @@ func Generate(seed uint64) *Scenario {
 		// declared after the commands exist; may collide with names the commands use themselves
 		sc.Root.LateOpts = genOpts(r, copyTaken(taken), 1+r.Intn(2), reqBias)
 	}
+	// directed shapes that random drawing reaches too rarely
+	special := ""
+	switch r.Intn(40) {
+	case 0: // two sibling commands with the same display name, addressed by that name
+		if len(sc.Root.Subs) >= 2 {
+			n := []string{"tool", "cmd"}[r.Intn(2)]
+			sc.Root.Subs[0].SelfName, sc.Root.Subs[1].SelfName = n, n
+			special = n
+		}
+	case 1: // names whose "natural" order is not a total order, as commands and as suggestions
+		have := map[string]bool{}
+		for _, c := range sc.Root.Subs {
+			have[c.Name] = true
+		}
+		for _, n := range []string{"v2", "v10", "v1beta1"} {
+			if !have[n] && r.Intn(3) != 0 {
+				sc.Root.Subs = append(sc.Root.Subs, genCmd(r, n, copyTaken(taken), 1, reqBias))
+			}
+		}
+		sc.Root.ArgComp = append(sc.Root.ArgComp, "v2", "v10", "v1beta1")
+		special = "complete:v"
+	}
 	sc.Help = r.Intn(3) != 0
 	sc.HelpAlias = sc.Help && r.Intn(2) == 0
 	if sc.Help && r.Intn(6) == 0 {
@@ -330,6 +352,10 @@ func Generate(seed uint64) *Scenario {
 	names := allNames(cur)
 	unknowns := []string{"--zzz", "--yyy=3", "-w", "--unk", "--zeta", "-zy"}
 	nargs := r.Intn(8)
+	if special != "" && !strings.HasPrefix(special, "complete:") {
+		sc.Argv = append(sc.Argv, special)
+		nargs = r.Intn(2)
+	}
 	if len(cur.Subs) > 0 && r.Intn(10) == 0 { // `help <topic>`, the topic possibly abbreviated
 		w := cur.Subs[r.Intn(len(cur.Subs))].Name
 		sc.Argv = append(sc.Argv, "help", w[:1+r.Intn(len(w))])
@@ -472,6 +498,9 @@ func Generate(seed uint64) *Scenario {
 			name = o.Aliases[r.Intn(len(o.Aliases))]
 		}
 		last = "--" + name + "=" + v[:r.Intn(len(v)+1)]
+	}
+	if strings.HasPrefix(special, "complete:") {
+		cl, last = []string{"prog"}, []string{"v", "", "v1"}[r.Intn(3)]
 	}
 	cl = append(cl, last)
 	sc.CompLine = strings.Join(cl, " ")
